@@ -16,13 +16,12 @@ import tempfile
 
 VERIF = os.path.dirname(os.path.dirname(os.path.abspath(__file__)))
 PROPS = ['C10', 'C14', 'C15', 'C16', 'C17', 'C18', 'C19']
-PLAN_SIZE = {'C10': 3748, 'C14': 1500, 'C15': 3284, 'C16': 1552, 'C17': 14185, 'C18': 17240, 'C19': 5816}
 
 
-def run(prop, seed, stride, workers, hashseed, out):
+def run(prop, seed, target, workers, hashseed, out):
     env = dict(os.environ, VERIF_SEED=str(seed), PYTHONHASHSEED=hashseed, PYTHONDONTWRITEBYTECODE='1',
                VERIF_EVIDENCE_DIR=os.path.dirname(out), VERIF_REPLAY_DIR=os.path.dirname(out))
-    p = subprocess.run(['/venv/bin/python', '-B', os.path.join(VERIF, 'sim', 'main.py'), prop, '--stride', str(stride), '--workers', str(workers),
+    p = subprocess.run(['/venv/bin/python', '-B', os.path.join(VERIF, 'sim', 'main.py'), prop, '--target-runs', str(target), '--workers', str(workers),
                         '--dump-digests', out, '--no-verify-replay'], env=env, capture_output=True, text=True, timeout=1800)
     if not os.path.exists(out):
         raise SystemExit('run failed: %s %s\n%s' % (prop, p.returncode, (p.stdout + p.stderr)[-1500:]))
@@ -43,7 +42,7 @@ def main():
     report = {}
     try:
         for prop in args.props.split(','):
-            stride = max(1, PLAN_SIZE.get(prop, 2000) // args.target_runs)
+            stride = args.target_runs
             for seed in [int(x) for x in args.seeds.split(',')]:
                 ref = run(prop, seed, stride, 16, '0', os.path.join(tmp, 'ref.json'))
                 configs = [('again', 16, '0'), ('hashseed1', 16, '1'), ('hashseed-random', 16, 'random'), ('workers1', 1, '0'), ('workers4', 4, '0')]
